@@ -161,3 +161,90 @@ Definition chk_rp (c : rp_case) : bool :=
 
 (* unreserved(): every character the relying party's generator returned is in the modelled alphabet *)
 Definition chk_unreserved (c : pystr * bool) : bool := Bool.eqb (unreserved_s (fst c)) (snd c).
+
+(* ---------------------------------------------------------------- transports of the authorization request
+   The two PKCE parameters can reach the provider in more than one place.  pk = (code_challenge,
+   code_challenge_method) as they appear in ONE place (None: the parameter is not there).
+     DFront f            plain front-channel parameters
+     DValue obj f        request=<signed request object carrying obj>, f next to it on the front channel
+     DRef obj f          request_uri=<document = signed request object carrying obj>, f next to it
+     DPushed b f         b was pushed to the pushed-authorization endpoint over the authenticated back channel
+                         (PbPlain body: as plain body parameters; PbObject obj body: body carries request=<object
+                         with obj> and body next to it), the issued urn redeemed with f next to it on the front channel
+   What the code does with them (tied by harness/drv_C15.py, transport flows):
+     oauth2/oidc AuthorizationRequest.verify, `request`:  every parameter the object does not carry is deleted,
+         then self.update(object)                                   -> the object IS the request
+     Authorization._do_request_uri, fetched document:  `for k, v in _ver_request.items(): request[k] = v`
+                                                                    -> per parameter: the object's value wins,
+                                                                       parameters only on the front channel stay
+     Authorization._do_request_uri, urn:uuid: of par_db:  `return _req`  -> the pushed request IS the request
+     PushedAuthorization: parse_request merges lax, process_request re-parses with the authorization endpoint's
+         request class (strict)                                     -> the pushed object IS the pushed request
+   post_authn_parse (the PKCE hook) runs after these, on the assembled request. *)
+Definition pk : Type := option pystr * option pystr.
+Definition npk (p : pk) : pk := (norm (fst p), norm (snd p)).
+Definition fill (a b : option pystr) : option pystr := match a with Some _ => a | None => b end.
+(* protected parameters override same-named front-channel ones *)
+Definition over (prot front : pk) : pk :=
+  (fill (norm (fst prot)) (norm (fst front)), fill (norm (snd prot)) (norm (snd front))).
+
+Inductive pushed_body := PbPlain (body : pk) | PbObject (obj body : pk).
+Inductive delivery :=
+| DFront (front : pk)
+| DValue (obj front : pk)
+| DRef (obj front : pk)
+| DPushed (b : pushed_body) (front : pk).
+
+Definition pushed_request (b : pushed_body) : pk :=
+  match b with PbPlain body => npk body | PbObject obj _ => npk obj end.
+
+(* the PKCE pair of the authenticated / protected request (None: the request has no protected part) *)
+Definition protected_of (d : delivery) : option pk :=
+  match d with
+  | DFront _ => None
+  | DValue obj _ | DRef obj _ => Some (npk obj)
+  | DPushed b _ => Some (pushed_request b)
+  end.
+(* what travels unprotected through the user agent *)
+Definition front_of (d : delivery) : pk :=
+  match d with DFront f | DValue _ f | DRef _ f | DPushed _ f => npk f end.
+
+(* the pair post_authn_parse sees *)
+Definition assembled (d : delivery) : pk :=
+  match d with
+  | DFront f => npk f
+  | DValue obj _ => npk obj
+  | DRef obj f => over obj f
+  | DPushed b _ => pushed_request b
+  end.
+
+(* what the grant of the issued code records: authn_leg on the assembled request *)
+Definition recorded_d (cf : pkce_conf) (per_client : option bool) (d : delivery) : res (option pystr * pystr) :=
+  authn_leg cf per_client (fst (assembled d)) (snd (assembled d)).
+
+Definition flow_d (HB : N -> pystr -> pystr) (cf : pkce_conf) (per_client : option bool) (d : delivery)
+           (cv tccm : option pystr) : outcome :=
+  flow HB cf per_client (fst (assembled d)) (snd (assembled d)) cv tccm.
+
+(* one flow whose authorization request came through a transport:
+   (configured methods, global essential, per-client flag, delivery, token-request code_verifier and
+    code_challenge_method, hash table, observed outcome,
+    observed (code_challenge, code_challenge_method) of the grant's stored authorization request when a code was issued) *)
+Definition dflow_case : Type :=
+  list pystr * bool * option bool * delivery * option pystr * option pystr * hb_tab * outcome
+  * option (option pystr * pystr).
+Definition dflow_model (c : dflow_case) : outcome * option (option pystr * pystr) :=
+  let '(ms, g, ce, d, cv, tccm, tab, _, _) := c in
+  (flow_d (hb_lookup tab) (mk_pkce_conf ms g) ce d cv tccm,
+   match recorded_d (mk_pkce_conf ms g) ce d with Ok st => Some st | _ => None end).
+Definition opt_str_eqb (a b : option pystr) : bool :=
+  match a, b with Some x, Some y => str_eqb x y | None, None => true | _, _ => false end.
+Definition chk_dflow (c : dflow_case) : bool :=
+  let '(_, _, _, _, _, _, _, obs, obs_r) := c in
+  let (o, r) := dflow_model c in
+  outcome_eqb o obs
+  && match r, obs_r with
+     | Some (c1, m1), Some (c2, m2) => opt_str_eqb c1 c2 && str_eqb m1 m2
+     | None, None => true
+     | _, _ => false
+     end.
